@@ -146,6 +146,9 @@ def directed(rng, probes=False):
         # the reply of a callback handler cannot be sent: the channel is still closed once, by whatever ends the client afterwards
         add('cb-reply-sendfail-%d' % v, {'callback': True, 'recvUnblocks': e}, [peer(('call', 7, False)), D, dict(a='sendfail'), dict(a='cbret', id='7', out=['ok', 'err:7', 'ok'][v]), D,
                                                                             [dict(a='close'), dict(a='peerclose'), dict(a='sendheal')][v], D, op('o1'), D, dict(a='close'), D])
+        # the channel's Close complains (after closing): everything else is as if it had not - pending calls end, OnStop runs once with the cause
+        add('closefail-%d' % v, {'callback': e, 'recvUnblocks': bool(v == 2)}, [dict(a='closefail'), op('o1'), op('o2', 'batch', [False, True]), D,
+                                                                                 [dict(a='close'), dict(a='peerclose'), dict(a='recverr')][v], D, op('o3'), D, dict(a='close'), D])
         add('close-twice-%d' % v, {'callback': True}, [peer(('call', 7, False)), D, dict(a='recverr'), D, dict(a='close'), D, dict(a='cbret', id='7'), D])
         add('reply-after-close-%d' % v, {}, [op('o1'), D, dict(a='close'), peer(R(1)), D])
     return out
